@@ -106,8 +106,9 @@ class StorageInterface(ABC):
         finally:
             # If nothing got written due to the exception, clean up the directory
             # (as long as there's nothing else in it)
-            if not any(filename.parent.iterdir()):
-                filename.parent.rmdir()
+            parent = filename.parent
+            if parent.resolve() != Path.cwd() and not any(parent.iterdir()):
+                parent.rmdir()
 
     def load(
         self, node: Node | None = None, filename: str | Path | None = None, **kwargs
@@ -163,10 +164,14 @@ class StorageInterface(ABC):
             **kwargs: Additional keyword arguments.
         """
         filename = self._parse_filename(node=node, filename=filename)
-        if self._has_saved_content(filename, **kwargs):
-            self._delete(filename, **kwargs)
-        if filename.parent.exists() and not any(filename.parent.iterdir()):
-            filename.parent.rmdir()
+        self._delete(filename, **kwargs)
+        parent = filename.parent
+        if (
+            parent.exists()
+            and parent.resolve() != Path.cwd()
+            and not any(parent.iterdir())
+        ):
+            parent.rmdir()
 
     def _parse_filename(
         self, node: Node | None, filename: str | Path | None = None
@@ -275,7 +280,10 @@ class PickleStorage(StorageInterface):
             else [self._PICKLE]
         )
         for suffix in suffixes:
-            filename.with_suffix(suffix).unlink(missing_ok=True)
+            p = filename.with_suffix(suffix)
+            p.unlink(missing_ok=True)
+            # Also the scratch file an interrupted save may have left behind
+            p.with_name(p.name + ".tmp").unlink(missing_ok=True)
 
     def _has_saved_content(
         self, filename: Path, /, cloudpickle_fallback: bool | None = None
